@@ -104,7 +104,7 @@ theorem decide_le_eq_not_lt (b x : Rat) : decide (b ≤ x) = !decide (x < b) := 
 /-- the emitted upper test (float form: bounds printed as they are) -/
 theorem hiPasses_float (c : NumCheck) (x : Rat) (hr : c.roundToInt = false) :
     c.hiPasses x = okHi (normHi c.hi c.xhi) x := by
-  unfold NumCheck.hiPasses okHi NumCheck.valueOf
+  unfold NumCheck.hiPasses okHi NumCheck.boundOf
   rcases normHi c.hi c.xhi with ⟨_ | b, e⟩
   · rfl
   · cases e
@@ -113,7 +113,7 @@ theorem hiPasses_float (c : NumCheck) (x : Rat) (hr : c.roundToInt = false) :
 
 theorem loPasses_float (c : NumCheck) (x : Rat) (hr : c.roundToInt = false) :
     c.loPasses x = okLo (normLo c.lo c.xlo) x := by
-  unfold NumCheck.loPasses okLo NumCheck.valueOf
+  unfold NumCheck.loPasses okLo NumCheck.boundOf
   rcases normLo c.lo c.xlo with ⟨_ | b, e⟩
   · rfl
   · cases e
@@ -185,37 +185,59 @@ theorem normHi_den (hi : Option Rat) (x : XB) (b : Rat) (e : Bool)
     · simp [normHi, hc] at h; obtain ⟨rfl, _⟩ := h; exact h1 _ rfl
   · simp [normHi] at h; obtain ⟨rfl, _⟩ := h; exact h1 _ rfl
 
-theorem valueOf_integral (c : NumCheck) (b : Rat) (hb : b.den = 1) : c.valueOf b = b := by
-  unfold NumCheck.valueOf
-  split
-  · unfold truncRat; rw [hb]; simp; exact den_one_cast b hb
+/-- the emitted upper test on an INTEGER value, whatever the (rational) bound: the moved literal admits exactly
+    the integers the stated bound admits -/
+theorem hiPasses_int (c : NumCheck) (v : Int) (hr : c.roundToInt = true) :
+    c.hiPasses (v : Rat) = okHi (normHi c.hi c.xhi) v := by
+  unfold NumCheck.hiPasses okHi NumCheck.boundOf
+  rcases normHi c.hi c.xhi with ⟨_ | b, e⟩
   · rfl
+  · cases e
+    · -- inclusive: literal ⌊b⌋, rejected iff ⌊b⌋ < v
+      simp only [hr, ↓reduceIte, Bool.true_eq_false, beq_iff_eq]
+      have h : ((b.floor : Int) : Rat) < (v : Rat) ↔ ¬ ((v : Rat) ≤ b) := by
+        rw [Int.cast_lt, ← Rat.le_floor_iff]; omega
+      by_cases hv : (v : Rat) ≤ b
+      · simp [hv, h]
+      · simp [hv, h]
+    · -- exclusive: literal ⌈b⌉, rejected iff ⌈b⌉ ≤ v
+      simp only [hr, ↓reduceIte, beq_self_eq_true]
+      have h : ((b.ceil : Int) : Rat) ≤ (v : Rat) ↔ ¬ ((v : Rat) < b) := by
+        rw [Int.cast_le, ← Rat.lt_ceil_iff]; omega
+      by_cases hv : (v : Rat) < b
+      · simp [hv, h]
+      · simp [hv, h]
 
-/-- **C05, `integer` positions, bounds**: with integral bounds the `int64(...)` conversion of the printed
-    literals changes nothing and the emitted comparisons are exact -/
-theorem int_bounds_exact (c : NumCheck) (v : Int) (hI : IntegralBounds c) (hm : c.mult = none)
+theorem loPasses_int (c : NumCheck) (v : Int) (hr : c.roundToInt = true) :
+    c.loPasses (v : Rat) = okLo (normLo c.lo c.xlo) v := by
+  unfold NumCheck.loPasses okLo NumCheck.boundOf
+  rcases normLo c.lo c.xlo with ⟨_ | b, e⟩
+  · rfl
+  · cases e
+    · -- inclusive: literal ⌈b⌉, rejected iff ⌈b⌉ > v
+      simp only [hr, ↓reduceIte, beq_self_eq_true, gt_iff_lt, ge_iff_le]
+      have h : (v : Rat) < ((b.ceil : Int) : Rat) ↔ ¬ (b ≤ (v : Rat)) := by
+        rw [Int.cast_lt, ← Rat.ceil_le_iff]; omega
+      by_cases hv : b ≤ (v : Rat)
+      · simp [hv, h]
+      · simp [hv, h]
+    · -- exclusive: literal ⌊b⌋, rejected iff ⌊b⌋ ≥ v
+      simp only [hr, ↓reduceIte, Bool.false_eq_true, beq_iff_eq, gt_iff_lt, ge_iff_le]
+      have h : (v : Rat) ≤ ((b.floor : Int) : Rat) ↔ ¬ (b < (v : Rat)) := by
+        rw [Int.cast_le, ← Rat.floor_lt_iff]; omega
+      by_cases hv : b < (v : Rat)
+      · simp [hv, h]
+      · simp [hv, h]
+
+/-- **C05, `integer` positions, bounds** (after fix R11): for EVERY rational bound — integral or fractional,
+    positive or negative — the emitted integer comparisons accept the integer `v` iff `v` satisfies every stated
+    bound, for every combination of presence, kind and relative order of the four keywords -/
+theorem int_bounds_exact (c : NumCheck) (v : Int) (hr : c.roundToInt = true) (hm : c.mult = none)
     (h1 : c.xlo ≠ .other) (h2 : c.xhi ≠ .other) :
     c.passes (v : Rat) = true ↔ Spec.boundsOK c.lo c.hi c.xlo c.xhi (v : Rat) = true := by
   rw [boundsOK_iff, ← normLo_spec _ _ _ h1, ← normHi_spec _ _ _ h2]
   unfold NumCheck.passes NumCheck.multPasses
-  rw [hm]
-  have hlo : c.loPasses (v : Rat) = okLo (normLo c.lo c.xlo) v := by
-    unfold NumCheck.loPasses okLo
-    rcases hn : normLo c.lo c.xlo with ⟨_ | b, e⟩
-    · rfl
-    · have hb := normLo_den c.lo c.xlo b e hI.1 hI.2.2.1 hn
-      cases e
-      · simp only [valueOf_integral c b hb, ge_iff_le, gt_iff_lt]; exact (decide_le_eq_not_lt b v).symm
-      · simp only [valueOf_integral c b hb, ge_iff_le, gt_iff_lt]; exact (decide_lt_eq_not_le b v).symm
-  have hhi : c.hiPasses (v : Rat) = okHi (normHi c.hi c.xhi) v := by
-    unfold NumCheck.hiPasses okHi
-    rcases hn : normHi c.hi c.xhi with ⟨_ | b, e⟩
-    · rfl
-    · have hb := normHi_den c.hi c.xhi b e hI.2.1 hI.2.2.2 hn
-      cases e
-      · simp only [valueOf_integral c b hb]; exact (decide_le_eq_not_lt v b).symm
-      · simp only [valueOf_integral c b hb]; exact (decide_lt_eq_not_le v b).symm
-  rw [hlo, hhi]
+  rw [hiPasses_int c v hr, loPasses_int c v hr, hm]
   simp [Bool.and_eq_true, and_comm]
 
 /-- **C05, `integer` positions, multipleOf** with an integral non-zero multipleOf -/
@@ -250,6 +272,11 @@ example : ({ lo := some 5, xlo := .num 5 } : NumCheck).passes 5 = false := by de
 example : ({ lo := some 5, xlo := .num 5 } : NumCheck).passes 6 = true := by decide +kernel
 example : IntegralBounds { lo := some 2, hi := some 9, xlo := .flag true, xhi := .num 8, roundToInt := true } := by
   refine ⟨?_, ?_, ?_, ?_⟩ <;> intro m h <;> simp at h <;> subst h <;> rfl
+/-- fractional bounds on an integer (the former findings K3): minimum 1.5 rejects 1 and accepts 2;
+    exclusiveMinimum -0.5 accepts 0 -/
+example : ({ lo := some (3/2), roundToInt := true } : NumCheck).passes (1 : Int) = false := by decide +kernel
+example : ({ lo := some (3/2), roundToInt := true } : NumCheck).passes (2 : Int) = true := by decide +kernel
+example : ({ xlo := .num (-1/2), roundToInt := true } : NumCheck).passes (0 : Int) = true := by decide +kernel
 example : ({ mult := some 3, roundToInt := true } : NumCheck).multPasses (-9 : Int) = true := by decide +kernel
 
 end GJS.Props.C05
